@@ -29,7 +29,7 @@ import lib
 
 ID = 'C07'
 PROPS_FILE = 'Props/C07.v'
-MODEL_FILES = ['Fortran/FText.v', 'Fortran/FSem.v', 'Fortran/FSolve.v', 'Fortran/FortranF.v', 'Fortran/FParse.v']
+MODEL_FILES = ['Fortran/FText.v', 'Fortran/FSem.v', 'Fortran/FSolve.v', 'Fortran/FortranF.v', 'Fortran/FParse.v', 'Fortran/FWrap.v']
 K_NAME = ('K_fortran: (a) FSolve.w_evaluate/w_solve_t/w_solve over FSem.f_eval vs the gfortran-compiled module driven through the real '
           'FortranEngine methods; (b) Solver.solve_t_M / FSolve.py_solve over FSem.py_eval vs the class from fsic.build_model; '
           '(c) extracted FText.rewrite/block/int_array_def/number_of/lag_of vs the text of build_fortran_definition; (d) extracted '
@@ -547,6 +547,17 @@ def corpus(rng):
     P.append(prog(['Y', ['b', '+', ['b', '*', ['d', '0.5'], ['v', 'Y', 0]], ['b', '/', ['v', 'X', 0], ['i', 2]]]], family='lit'))
     P.append(prog(['Y', ['b', '+', ['b', '^', ['v', 'X', 0], ['i', 3]], ['b', '^', ['v', 'Z', 0], ['neg', ['i', 2]]]]], family='powi'))
 
+    # every production of the Fortran expression grammar that places a sign (FParse.p_level2 / p_ext_add / p_ext_mult / `**` operand)
+    X, Z, W = ['v', 'X', 0], ['v', 'Z', 0], ['v', 'G', 0]
+    neg = lambda a: ['neg', a]
+    mul = lambda a, b_: ['b', '*', a, b_]
+    for rhs in (mul(neg(X), Z), mul(mul(X, neg(Z)), W), ['b', '-', X, mul(neg(Z), W)], ['b', '/', ['b', '/', X, neg(Z)], W], neg(neg(X)),
+                ['b', '-', neg(X), neg(Z)], ['b', '+', ['b', '+', X, mul(neg(Z), W)], neg(['b', '+', Z, W])], neg(['b', '^', X, ['i', 2]]),
+                ['b', '^', neg(X), ['i', 2]], ['b', '^', X, neg(['i', 2])], mul(neg(['b', '^', X, ['i', 3]]), Z), mul(X, neg(['b', '^', Z, ['i', 2]])),
+                ['m', 'max', mul(neg(X), Z), neg(mul(X, Z))], ['f', 'abs', ['b', '-', neg(X), mul(neg(Z), neg(W))]],
+                ['b', '/', neg(mul(X, Z)), neg(W)], mul(['par', neg(X)], Z), ['b', '-', ['b', '-', X, Z], ['b', '-', Z, W]]):
+        P.append(prog(['Y', rhs], family='sign'))
+
     def nest(k, leaf):
         for _ in range(k):
             leaf = ['f', 'abs', leaf]
@@ -563,7 +574,7 @@ def gen(rng, tier):
     fixed = corpus(rng)
     for pr in fixed:
         cases.append({'kind': 'text', 'prog': pr, 'script': script_of(pr)})
-        cases += gen_runs(rng, pr, 24 if tier == 'quick' else 60)
+        cases += gen_runs(rng, pr, (8 if pr['family'] in ('sign', 'wrap') else 24) if tier == 'quick' else (30 if pr['family'] in ('sign', 'wrap') else 60))
     # hand-made boundary runs on the first corpus program (one equation, one lag)
     p0 = fixed[0]
     for t, mx, mn, off, fl, er in [(1, 0, 0, 0, 'raise', 'raise'), (1, 0, 0, 0, 'ignore', 'raise'), (0, 3, 0, 0, 'raise', 'raise'), (-4, 3, 0, 0, 'raise', 'raise'),
@@ -1164,6 +1175,9 @@ let () =
             else "=false parsed: " ^ (match parse_stmt (stmt_of_block (explode (unesc blk))) with
                                       | Some (r, e) -> string_of_int (int_of_nat r) ^ " " ^ show e
                                       | None -> "no parse of " ^ implode (stmt_of_block (explode (unesc blk)))) ^ " expected: " ^ show (s_regroup t)
+        | ["E"; names; width; eq] -> (match equation_block (strs names) (nat_of_int (int_of_string width)) (explode eq) with
+                                      | Some b -> "=" ^ implode b | None -> "!KeyError")
+        | ["F"; name; width; nums] -> "=" ^ implode (array_def_block (nat_of_int (int_of_string width)) (List.map nat_of_int (ints nums)) (explode name))
         | ["I"; k] -> "=" ^ implode (idx_text (z_of_int (int_of_string k)))
         | ["T"; num; k] -> "=" ^ implode (term_f (nat_of_int (int_of_string num)) (idx_text (z_of_int (int_of_string k))))
         | ["U"; num; k] -> "=" ^ implode (explode "solved_values(" @ explode num @ explode ", " @ f_idx_text (z_of_int (int_of_string k)) @ explode ")")
@@ -1174,8 +1188,8 @@ let () =
   with End_of_file -> ()
 '''
 EXTRACT_V = '''From Coq Require Import ExtrOcamlBasic ExtrOcamlString.
-Require Import Fsic.Fortran.FText Fsic.Fortran.FParse.
-Extraction "ftext.ml" rewrite segments stream block int_array_def wrapped_def number_of index_of lag_of lead_of idx_text f_idx_text term_f
+Require Import Fsic.Fortran.FText Fsic.Fortran.FParse Fsic.Fortran.FWrap.
+Extraction "ftext.ml" equation_block array_def_block rewrite segments stream block int_array_def wrapped_def number_of index_of lag_of lead_of idx_text f_idx_text term_f
            block_matches parse_stmt stmt_of_block s_regroup.
 '''
 
@@ -1184,7 +1198,7 @@ def driver_path():
     """Builds (when missing or older than FText.vo) the extracted text model + driver under lib.COQ/Extract/C07/."""
     d = os.path.join(lib.COQ, 'Extract', 'C07')
     exe = os.path.join(d, 'driver')
-    vo = max((os.path.join(lib.COQ, 'Fortran', f) for f in ('FText.vo', 'FParse.vo')), key=lambda q: os.path.getmtime(q) if os.path.exists(q) else 0)
+    vo = max((os.path.join(lib.COQ, 'Fortran', f) for f in ('FText.vo', 'FParse.vo', 'FWrap.vo')), key=lambda q: os.path.getmtime(q) if os.path.exists(q) else 0)
     stamp = os.path.join(d, 'driver.ml')
     if os.path.exists(exe) and os.path.exists(vo) and os.path.getmtime(exe) >= os.path.getmtime(vo) and os.path.exists(stamp) and open(stamp).read() == DRIVER_ML:
         return exe, None
@@ -1260,6 +1274,8 @@ def text_requests(case, o):
         rq.append(('R\t%s\t%s' % (nm, eq), same_code, 'rewrite of %r' % eq[:60]))
         rq.append(('S\t%s\t%s' % (nm, eq), same_code, 'stream rewrite of %r' % eq[:60]))
         rq.append(('B\t%s\t%s' % (eq, US.join(wrapped)), '=' + blk.replace('\n', '\x1e'), 'block of %r' % eq[:60]))
+        # the WHOLE text pipeline in the model (rewrite, FWrap.wrap = textwrap.wrap, continuation join, indent): no oracle
+        rq.append(('E\t%s\t%d\t%s' % (nm, WRAP_WIDTH, eq), '=' + blk.replace('\n', '\x1e'), 'equation_block of %r' % eq[:60]))
     # every term of the syntax tree: NAME[idx_text k] stands in the equation, term_f (number) (idx_text k) = solved_values(number, f_idx_text k)
     # stands in the code generated for it
     by_lhs = {}
@@ -1292,6 +1308,7 @@ def text_requests(case, o):
         nums = [o['names'].index(x) + 1 for x in lst]
         rq.append(('D\t%s\t%s' % (name, US.join(map(str, nums))), (lambda a, j=wsnorm(' '.join(wrapped)): a.startswith('=') and wsnorm(a[1:]) == j), 'definition of %s' % name))
         rq.append(('W\t%s' % US.join(wrapped), '=' + d_.replace('\n', '\x1e'), 'wrapped definition of %s' % name))
+        rq.append(('F\t%s\t%d\t%s' % (name, WRAP_WIDTH, US.join(map(str, nums))), '=' + d_.replace('\n', '\x1e'), 'array_def_block of %s' % name))
     return rq
 
 
